@@ -14,14 +14,14 @@ var untimedAssumptions = []string{
 
 func init() {
 	checks["C01"] = func(prop, tier string) int {
-		p := []plan{{"all1", 10}, {"rep2-d3", 20}, {"rep3-d3", 70}, {"crash3-d2", 40}, {"net3-d2", 20}, {"lead3-d2", 30}}
+		p := []plan{{"all1", 10}, {"rep2-d3", 20}, {"part2-d4", 25}, {"part4-d2", 30}, {"rep3-d3", 70}, {"crash3-d2", 40}, {"net3-d2", 20}, {"lead3-d2", 30}, {"regained5-d2", 40}}
 		if tier == "thorough" {
-			p = []plan{{"all1", 10}, {"all2", 150}, {"rep2-d5", 100}, {"rep3-d4", 500}, {"crash3-d3", 300}, {"net3-d3", 120}, {"lead3-d3", 300}, {"rep4-d3", 150}, {"rep5-d2", 60}, {"crash5-d2", 120}}
+			p = []plan{{"all1", 10}, {"all2", 150}, {"rep2-d5", 100}, {"rep3-d4", 500}, {"crash3-d3", 300}, {"net3-d3", 120}, {"lead3-d3", 300}, {"rep4-d3", 150}, {"rep5-d2", 60}, {"crash5-d2", 120}, {"part2-d5", 100}, {"part3-d3", 400}, {"part4-d3", 400}, {"regained5-d3", 300}, {"stale5-d3", 300}}
 		}
 		return clusterCheck(prop, tier, p, []string{"leader_present", "op_applied_on_2plus_nodes", "restarted_node_up", "op_acked"}, untimedAssumptions)
 	}
 	checks["C02"] = func(prop, tier string) int {
-		p := []plan{{"elect2-d3", 10}, {"elect3-d3", 60}, {"elect4-d2", 30}, {"split3-d3", 20}, {"crash3-d2", 40}, {"crash2-d3", 30}}
+		p := []plan{{"elect2-d3", 10}, {"elect3-d3", 60}, {"elect4-d2", 30}, {"split3-d3", 20}, {"crash3-d2", 40}, {"crash2-d3", 30}, {"part2-d4", 25}, {"part4-d2", 30}}
 		if tier == "thorough" {
 			p = []plan{{"elect2-d5", 100}, {"elect3-d4", 500}, {"elect4-d3", 300}, {"elect5-d2", 120}, {"split3-d4", 200}, {"crash3-d3", 300}, {"crash2-d4", 150}, {"crash4-d2", 100}}
 		}
@@ -42,7 +42,7 @@ func init() {
 		return clusterCheck(prop, tier, p, []string{"leader_present", "op_acked", "op_applied_on_2plus_nodes"}, untimedAssumptions)
 	}
 	checks["C04"] = func(prop, tier string) int {
-		p := []plan{{"all1", 10}, {"crash2-d3", 30}, {"crash3-d2", 40}, {"lead3-d2", 30}, {"stale5-d2", 40}}
+		p := []plan{{"all1", 10}, {"crash2-d3", 30}, {"crash3-d2", 40}, {"lead3-d2", 30}, {"stale5-d2", 40}, {"regained5-d2", 40}, {"part2-d4", 25}, {"part4-d2", 30}}
 		if tier == "thorough" {
 			p = []plan{{"all1", 10}, {"crash2-d4", 150}, {"crash3-d3", 400}, {"lead3-d3", 400}, {"stale5-d3", 300}, {"crash4-d2", 100}, {"crash5-d2", 150}}
 		}
@@ -65,9 +65,9 @@ func init() {
 			}
 		}
 		if tier == "thorough" {
-			p = append(p, plan{"split3-d4", 200}, plan{"crash3-d3", 300}, plan{"elect3-d3", 100}, plan{"crash2-d4", 150})
+			p = append(p, plan{"split3-d4", 200}, plan{"crash3-d3", 300}, plan{"elect3-d3", 100}, plan{"crash2-d4", 150}, plan{"stale5-d3", 300})
 		} else {
-			p = append(p, plan{"split3-d3", 20}, plan{"crash3-d2", 40}, plan{"elect3-d2", 15})
+			p = append(p, plan{"split3-d3", 20}, plan{"crash3-d2", 40}, plan{"elect3-d2", 15}, plan{"stale5-d2", 40})
 		}
 		return clusterCheck(prop, tier, p, []string{"leader_present", "restarted_node_up"}, append([]string{"HANDLER suites hv*: one real node booted from preloaded storage, two puppet peers, every event sequence up to 4 (quick) / 5 (thorough) steps over RequestVote/AppendEntries/InstallSnapshot injections (terms T-1..T+1, both candidates, older/equal/newer logs, prevote or real, clock elapsed or not), own timeouts, every answer to its own requests, crash at quiescent points and armed at storage-call boundaries, restart"}, untimedAssumptions...))
 	}
@@ -77,5 +77,24 @@ func init() {
 			p = []plan{{"mem1-d4", 100}, {"mem2-d3", 300}, {"mem3-d3", 500}, {"memlead3-d3", 700}}
 		}
 		return clusterCheckAlso(prop, tier, p, []string{"leader_present", "op_acked", "config_changed"}, untimedAssumptions, []string{"C01", "C02", "C07"})
+	}
+	checks["C16"] = func(prop, tier string) int {
+		p := []plan{{"sticky3r0-d2", 30}, {"sticky3r1-d2", 30}, {"sticky3r2-d2", 30}, {"rejoin3r0-d3", 40}, {"rejoin3r1-d2", 20}, {"rejoin3r2-d2", 20}}
+		if tier == "thorough" {
+			p = []plan{{"sticky3r0-d3", 400}, {"sticky3r1-d3", 400}, {"sticky3r2-d3", 400}, {"rejoin3r0-d4", 400}, {"rejoin3r1-d4", 400}, {"rejoin3r2-d4", 400}}
+		}
+		return clusterCheck(prop, tier, p, []string{"leader_present", "minority_campaigned", "node_down"}, []string{
+			"timed mode: global clock in heartbeat intervals (election timeout 6, lease 2), messages are delivered within the interval unless a link is cut; election timeouts staggered per node, all rotations enumerated",
+			"premise enforced by the alphabet: faults (symmetric/one-directional isolation, heal, crash, restart) only hit the minority node; the leader's heartbeats to the majority are prompt",
+			"horizon 36 intervals (6 election timeouts); deviation bound per suite"})
+	}
+	checks["C17"] = func(prop, tier string) int {
+		p := []plan{{"lease3-d2", 40}, {"cutlease3-d2", 20}, {"cutlease3-d3", 60}, {"minlease5-d2", 30}}
+		if tier == "thorough" {
+			p = []plan{{"lease3-d3", 600}, {"cutlease3-d4", 600}, {"minlease5-d3", 300}}
+		}
+		return clusterCheck(prop, tier, p, []string{"leader_present", "op_acked", "read_served", "two_leaders_different_terms"}, []string{
+			"timed mode: synchronised clocks in heartbeat intervals (election timeout 6, lease 2 intervals); every message is delivered within at most one interval (lag events) unless a link is cut, so lease + delay < election timeout",
+			"at most one outstanding read per node; horizon 14-30 intervals; deviation bound per suite"})
 	}
 }
